@@ -13,7 +13,7 @@ import (
 )
 
 func init() {
-	props["C18"] = &propDef{run: runC18, explanation: "Partial. Decided statically: (O1) every comparator handed to sort.Slice/SliceStable in the metadata package is, on all weak orderings of (time_i, time_j, number_i, number_j), exactly time_i < time_j ∨ (time_i = time_j ∧ number_i < number_j) — the lexicographic anchoring order (finite, exhaustive); the version provider's comparator is a strict order on its single key; (T1) the transformer's purpose switch maps each of the five purposes to its own relationship and covers every purpose the patch validator admits; the key-context table covers every key type the validator admits; (P1) the verification-method literal (id = getObjectID(did, key id), type, controller = did), getObjectID (relative '#id' under @base, did+'#id' otherwise), exactly one append of the method per key and of each reference per purpose, the key-material table per key type, service id/type/endpoint plus copy of every other member; (P2) the metadata field mapping (method metadata, document metadata, published/unpublished operation literals field by field, de-duplication by canonical reference, both lists sorted before use). Not decided: counting statements over arbitrary documents beyond the one-append-per-iteration shape. The context of the key's type is looked up for every key (for-all loop form); each metadata member is stored under conditions on its own source only. The comparator of a sortedness test is held to the same order; the @base context entry is added under exactly the includeBase flag. No equivalent id reported for an unpublished document carries the initial state. canonicalId / equivalentId of a published document are unconditional and the canonical id is always an equivalent id; object ids are decided in concatenation form under both values of the @base flag; the key-material table is evaluated on all assignments of its atoms. Both transformer steps precede every accepting exit; key-type contexts are de-duplicated by equality; the generic transformer stores nothing over the id. Relationship lists start from slices of their own; optional metadata members are stored under a presence test of the whole value; every unpublished operation is listed. An empty key context leads to the defaults after the options. Service members are copied whatever their values."}
+	props["C18"] = &propDef{run: runC18, explanation: "Partial. Decided statically: (O1) every comparator handed to sort.Slice/SliceStable in the metadata package is, on all weak orderings of (time_i, time_j, number_i, number_j), exactly time_i < time_j ∨ (time_i = time_j ∧ number_i < number_j) — the lexicographic anchoring order (finite, exhaustive); the version provider's comparator is a strict order on its single key; (T1) the transformer's purpose switch maps each of the five purposes to its own relationship and covers every purpose the patch validator admits; the key-context table covers every key type the validator admits; (P1) the verification-method literal (id = getObjectID(did, key id), type, controller = did), getObjectID (relative '#id' under @base, did+'#id' otherwise), exactly one append of the method per key and of each reference per purpose, the key-material table per key type, service id/type/endpoint plus copy of every other member; (P2) the metadata field mapping (method metadata, document metadata, published/unpublished operation literals field by field, de-duplication by canonical reference, both lists sorted before use). Not decided: counting statements over arbitrary documents beyond the one-append-per-iteration shape. The context of the key's type is looked up for every key (for-all loop form); each metadata member is stored under conditions on its own source only. The comparator of a sortedness test is held to the same order; the @base context entry is added under exactly the includeBase flag. No equivalent id reported for an unpublished document carries the initial state. canonicalId / equivalentId of a published document are unconditional and the canonical id is always an equivalent id; object ids are decided in concatenation form under both values of the @base flag; the key-material table is evaluated on all assignments of its atoms. Both transformer steps precede every accepting exit; key-type contexts are de-duplicated by equality; the generic transformer stores nothing over the id. Relationship lists start from slices of their own; optional metadata members are stored under a presence test of the whole value; every unpublished operation is listed. An empty key context leads to the defaults after the options. Service members are copied whatever their values. Equivalent ids of an unpublished document carry the label."}
 }
 
 func (c *Ctx) sortComparators(pkgRel string) []*ssa.Function {
@@ -709,15 +709,27 @@ func runC18(c *Ctx) {
 						return
 					}
 					for _, e := range boolEdges(x, zeroTrue) {
+						// on that edge: the field receives the default map — itself, or a map filled from it (a copy)
+						stored, fromDefault := false, false
 						forEachInstr(fn, func(i2 ssa.Instruction) {
-							st, isS := i2.(*ssa.Store)
-							if !isS || !e.to.Dominates(st.Block()) {
+							if !e.to.Dominates(i2.Block()) {
 								return
 							}
-							if strings.HasSuffix(c.Path(st.Addr, nil), ".keyCtx") && strings.HasSuffix(c.Path(st.Val, nil), ".defaultKeyContextMap") {
-								found = true
+							if st, isS := i2.(*ssa.Store); isS && strings.HasSuffix(c.Path(st.Addr, nil), ".keyCtx") {
+								stored = true
+								if strings.HasSuffix(c.Path(st.Val, nil), ".defaultKeyContextMap") {
+									fromDefault = true
+								}
+							}
+							if ld, isLd := i2.(*ssa.UnOp); isLd && ld.Op == token.MUL {
+								if g, isG := ld.X.(*ssa.Global); isG && g.Name() == "defaultKeyContextMap" {
+									fromDefault = true
+								}
 							}
 						})
+						if stored && fromDefault {
+							found = true
+						}
 					}
 				case *ssa.Call:
 					if !top {
